@@ -541,6 +541,11 @@ func c12Scenarios(depth int, loggers []int, budgets []uint64) []c12Run {
 				}
 			}
 			targets = append(targets, 0x7E3000, start^0x010000, 0x000000)
+			// the target is a uint32: values above the 24-bit space equal no program counter
+			targets = append(targets, bounds[0]|0x01000000, bounds[len(bounds)-1]|0xFF000000)
+			if len(bounds) > 2 {
+				targets = append(targets, bounds[1]|0x80000000)
+			}
 			for _, t := range targets {
 				for _, b := range budgets {
 					for _, lg := range loggers {
@@ -642,7 +647,7 @@ func runC12(r *report.Run) {
 			r.Sample(cs)
 		}
 	}
-	r.Set("rule", "Step part: every case of the five sweeps (E, pending interrupts, Stopped before/after) on both interpreters: cycles >= 1, AllCycles grows by exactly the reported count, stop status as specified, OnWDM receives exactly the operand (all 256); sequences: the same along every program of the search incl. steps after STP and Reset. RunUntil part: every program up to depth 3 over a 16-instruction alphabet (loops, STP, block move, calls) x 2 placements x every instruction boundary / inside-operand / unreachable target x the budget alphabet (budgets 1, 3, 8 also with the running cycle total two below 2^64 at entry) on a real emulator.System, compared with a twin System stepped by hand (final CPU state, memory, result; then a second RunUntil call on the same System towards the end of the program, compared again) with program-counter callbacks on every program byte (exactly once per fetch, pre-instruction state) that double as a non-termination guard")
+	r.Set("rule", "Step part: every case of the five sweeps (E, pending interrupts, Stopped before/after) on both interpreters: cycles >= 1, AllCycles grows by exactly the reported count, stop status as specified, OnWDM receives exactly the operand (all 256); sequences: the same along every program of the search incl. steps after STP and Reset. RunUntil part: every program up to depth 3 over a 16-instruction alphabet (loops, STP, block move, calls) x 2 placements x every instruction boundary / inside-operand / unreachable target / boundary with bits above the 24-bit space set x the budget alphabet (budgets 1, 3, 8 also with the running cycle total two below 2^64 at entry) on a real emulator.System, compared with a twin System stepped by hand (final CPU state, memory, result; then a second RunUntil call on the same System towards the end of the program, compared again) with program-counter callbacks on every program byte (exactly once per fetch, pre-instruction state) that double as a non-termination guard")
 	r.Sample(c12Run{Prog: []string{"LDA #$1234", "BRA -2"}, Start: 0x7E2000, Target: 0x7E2003, Budget: 13})
 	r.Sample(c12Run{Prog: []string{"STP", "NOP"}, Start: 0x008000, Target: 0x008001, Budget: 50})
 	r.Assume("the twin is a second real System stepped by hand: the loop logic of RunUntil is judged, the Step semantics are judged by C01/C02")
